@@ -1464,3 +1464,56 @@ def c11_cause(scn, fail):
     if clause == "terminates":
         return "lost_wakeup" if any(c.cmd == "pool" and "pause" in c.toks and "resume" in " ".join(c.toks) for c in scn.calls) else "other"
     return "other"
+
+
+# ----------------------------------------------------------------------------- C10
+
+C10_SECS = ("update", "elev", "rcount", "recv", "rdist", "rweight", "dfs", "bfs", "levels", "acc", "basins", "outlets", "pits")
+
+
+def c10(scn):
+    """a scenario holds two runs of the same calls: first on a graph whose routers are
+    sequential, then on one whose routers are multi-threaded (marked by the `graph` calls); every
+    observable of the second must equal the first; kernels: every (threads, thresholds) variant
+    must equal the sequential application"""
+    fails = []
+    runs, cur = [], None
+    for c in scn.calls:
+        if c.cmd == "graph":
+            cur = dict(ops=c.toks[1:], calls=[])
+            runs.append(cur)
+        elif cur is not None and c.cmd in ("update", "acc", "basins", "kernel"):
+            cur["calls"].append(c)
+    if len(runs) >= 2:
+        a, b = runs[0], runs[1]
+        if len(a["calls"]) != len(b["calls"]):
+            fails.append(("par_router_eq_seq", "different number of completed calls: %d vs %d" % (len(a["calls"]), len(b["calls"]))))
+        for ca, cb in zip(a["calls"], b["calls"]):
+            if ca.cmd == "kernel":
+                continue
+            for sec in C10_SECS:
+                if ca.O.get(sec) != cb.O.get(sec):
+                    fails.append(("par_router_eq_seq", "ops %s vs %s, call %s: %s differs: %s vs %s" % (
+                        " ".join(a["ops"]), " ".join(b["ops"]), ca.cmd, sec, " ".join(ca.O.get(sec) or ["<none>"])[:90], " ".join(cb.O.get(sec) or ["<none>"])[:90])))
+                    break
+    for r in runs:
+        ref = {}
+        for c in r["calls"]:
+            if c.cmd != "kernel":
+                if c.cmd == "update":
+                    ref = {}
+                continue
+            d, th = c.toks[1], int(c.toks[2])
+            out = c.O.get("kernel")
+            if out is None:
+                fails.append(("kernel_returns", " ".join(c.toks)))
+                continue
+            if th <= 1:
+                ref[d] = out
+            elif d == "dfs":
+                if out[:1] != ["err"]:
+                    fails.append(("kernel_par_depth_first_refused", "%s gave %s" % (" ".join(c.toks), out[:3])))
+            elif d in ref and out != ref[d]:
+                fails.append(("kernel_levels_eq_seq", "%s: output differs from the sequential application (first difference at node %s)" % (
+                    " ".join(c.toks), next((i for i, (x, y) in enumerate(zip(out, ref[d])) if x != y), "?"))))
+    return fails[:20]
